@@ -1408,3 +1408,93 @@ Proof.
     apply in_map. exact Hch.
 Qed.
 End Refine.
+
+(** * which names are safe from info()'s JSON decoding (guard of known finding D13, in syntactic form) *)
+Definition bad_char (a : ascii) : bool :=
+  negb (is_digit a || Ascii.eqb a "-" || Ascii.eqb a "e" || Ascii.eqb a "E").
+Fixpoint has_bad (s : string) : bool :=
+  match s with EmptyString => false | String a r => bad_char a || has_bad r end.
+
+Lemma bad_not_digit a : bad_char a = true -> is_digit a = false.
+Proof. unfold bad_char. destruct (is_digit a); [discriminate|reflexivity]. Qed.
+
+Lemma has_bad_all_digits s : has_bad s = true -> all_digits s = false.
+Proof.
+  induction s as [|a r IH]; simpl; [discriminate|]. intros H. apply orb_true_iff in H. destruct H as [H|H].
+  - now rewrite (bad_not_digit a H).
+  - rewrite (IH H). apply andb_false_r.
+Qed.
+
+Lemma has_bad_intpart s : has_bad s = true -> json_intpart s = false.
+Proof.
+  destruct s as [|a r]; simpl; [reflexivity|]. intros H.
+  destruct (Ascii.eqb a "0") eqn:E0.
+  - destruct r; [|reflexivity]. apply Ascii.eqb_eq in E0. subst a. simpl in H. discriminate.
+  - apply orb_true_iff in H. destruct H as [H|H].
+    + now rewrite (bad_not_digit a H).
+    + rewrite (has_bad_all_digits r H). apply andb_false_r.
+Qed.
+
+Lemma has_bad_exppart s : has_bad s = true -> json_exppart s = false.
+Proof.
+  destruct s as [|a r]; [reflexivity|]. intros H. unfold json_exppart.
+  destruct (Ascii.eqb a "-") eqn:E.
+  - destruct r; [reflexivity|]. apply Ascii.eqb_eq in E. subst a.
+    change (has_bad (String "-" (String a0 r))) with (bad_char "-" || has_bad (String a0 r)) in H.
+    simpl bad_char in H. apply has_bad_all_digits. exact H.
+  - now apply has_bad_all_digits.
+Qed.
+
+Lemma has_bad_split s : has_bad s = true ->
+  has_bad (fst (split_exp s)) = true \/ exists ex, snd (split_exp s) = Some ex /\ has_bad ex = true.
+Proof.
+  induction s as [|a r IH]; [discriminate|]. intros H. cbn [split_exp].
+  destruct (Ascii.eqb a "e" || Ascii.eqb a "E")%bool eqn:E.
+  - right. simpl. exists r. split; [reflexivity|]. cbn [has_bad] in H.
+    apply orb_true_iff in H. destruct H as [H|H]; [|exact H]. exfalso.
+    unfold bad_char in H. apply orb_true_iff in E.
+    destruct E as [E|E]; rewrite E in H; rewrite ?orb_true_r in H; discriminate.
+  - destruct (split_exp r) as [m e] eqn:Es. cbn [fst snd]. cbn [has_bad] in H |- *.
+    apply orb_true_iff in H. destruct H as [H|H].
+    + left. now rewrite H.
+    + destruct (IH H) as [Hl|Hr]; simpl in *.
+      * left. rewrite Hl. apply orb_true_r.
+      * right. exact Hr.
+Qed.
+
+Lemma json_number_bad s : has_bad s = true -> json_number s = None.
+Proof.
+  intros H. unfold json_number.
+  assert (Hbody : forall body, has_bad body = true ->
+            (let '(m, e) := split_exp body in
+             if json_intpart m then match e with None => Some (JInt 0) | Some ex => if json_exppart ex then Some JFloatLit else None end else None) = None
+            -> True) by auto.
+  clear Hbody.
+  assert (Hgen : forall (neg : bool) body, has_bad body = true ->
+     (let '(m, e) := split_exp body in
+      if json_intpart m
+      then match e with
+           | None => Some (JInt (if neg then - digits_val 0 m else digits_val 0 m))
+           | Some ex => if json_exppart ex then Some JFloatLit else None
+           end
+      else None) = None).
+  { intros neg body Hb. pose proof (has_bad_split body Hb) as Hs.
+    destruct (split_exp body) as [m e]. simpl in Hs. destruct Hs as [Hm|(ex & -> & Hex)].
+    - now rewrite (has_bad_intpart m Hm).
+    - rewrite (has_bad_exppart ex Hex). now destruct (json_intpart m). }
+  destruct s as [|a r]; [discriminate|].
+  destruct (Ascii.eqb a "-") eqn:E.
+  - apply Ascii.eqb_eq in E. subst a. cbn [has_bad] in H. simpl bad_char in H. exact (Hgen true r H).
+  - exact (Hgen false (String a r) H).
+Qed.
+
+(** a name containing any character other than a digit, '-', 'e', 'E', and different from the three JSON
+    literals, is not decoded: info() returns it unchanged (hg19, mm10, GRCh38, T2T-CHM13v2, ...) *)
+Theorem assembly_name_safe (s : string) :
+  has_bad s = true -> s <> "true"%string -> s <> "false"%string -> s <> "null"%string ->
+  info_assembly json_word (Some s) = inr s.
+Proof.
+  intros Hb H1 H2 H3. apply assembly_roundtrip. unfold json_word.
+  rewrite (proj2 (String.eqb_neq _ _) H1), (proj2 (String.eqb_neq _ _) H2), (proj2 (String.eqb_neq _ _) H3).
+  now apply json_number_bad.
+Qed.
